@@ -162,9 +162,19 @@ fn rand_frame(rng: &mut Rng) -> (u16, u8, Vec<u8>) {
 fn rand_stream(rng: &mut Rng, rep: &mut Report) -> (Vec<u8>, usize) {
     let k = 1 + rng.usize(4);
     let mut tape = vec![];
+    let mut prev: Option<(u16, u8, Vec<u8>)> = None;
     for _ in 0..k {
-        let (a, t, d) = rand_frame(rng);
-        match rng.below(10) {
+        // a third of the lines carry the SAME frame as the line before, usually in another spelling (right terminator,
+        // wrong terminator, lower case): a reader that remembers the previous line must not let it stand in for this one
+        let (a, t, d) = match &prev {
+            Some(p) if rng.chance(1, 3) => {
+                rep.count("lines/same_frame_as_previous_line");
+                p.clone()
+            }
+            _ => rand_frame(rng),
+        };
+        prev = Some((a, t, d.clone()));
+        match rng.below(12) {
             0 => {
                 tape.extend(refs::enc(a, t, &d));
                 tape.push(b'\n'); // bare LF: not a valid terminator
@@ -183,6 +193,16 @@ fn rand_stream(rng: &mut Rng, rep: &mut Report) -> (Vec<u8>, usize) {
             3 => {
                 tape.extend(refs::enc_crlf(a, t, &d).to_ascii_lowercase());
                 rep.count("lines/lower_case");
+            }
+            5 => {
+                tape.extend(refs::enc(a, t, &d));
+                tape.extend_from_slice(b"\r\r\n"); // doubled CR
+                rep.count("lines/doubled_cr");
+            }
+            6 => {
+                tape.extend(refs::enc(a, t, &d));
+                tape.extend_from_slice(*rng.pick(&[&b" \r\n"[..], &b"\t\r\n"[..], &b" \n"[..], &b"\r \n"[..]])); // blanks around the terminator
+                rep.count("lines/blank_near_terminator");
             }
             4 => {
                 let mut w = refs::enc(a, t, &d);
@@ -555,6 +575,7 @@ pub fn run(ctx: &Ctx) -> Outcome {
         floor("exhaustive read sets (every composition, every fault position)", report.get("exhaustive_read_sets_done") == 3, report.get("exhaustive_read_sets_done")),
         floor("compositions of a 14-byte stream all enumerated (8192)", report.get("compositions_enumerated") >= 8192, report.get("compositions_enumerated")),
         floor("exhaustive write set", report.get("exhaustive_write_sets_done") == 1, report.get("exhaustive_write_sets_done")),
+        floor("the same frame on consecutive lines; wrong terminators made of CR / blank / tab", report.get("lines/same_frame_as_previous_line") > 1000 && report.get("lines/doubled_cr") > 100 && report.get("lines/blank_near_terminator") > 100, report.get("lines/same_frame_as_previous_line")),
         floor("multi-frame streams", report.get("multi_frame_streams") > 0, report.get("multi_frame_streams")),
         floor("read faults of each kind fired", ["faults_fired/interrupted", "faults_fired/hard_error", "faults_fired/eof"].iter().all(|k| report.get(k) > 0), report.get("faults_fired/hard_error")),
         floor("frames read successfully", report.get("frames_read_ok") > 1000, report.get("frames_read_ok")),
@@ -571,7 +592,7 @@ pub fn run(ctx: &Ctx) -> Outcome {
     Outcome {
         report,
         level: "fault_enumeration",
-        rule: "read: streams of 1..4 lines (valid, bare-LF, empty, garbage, lower-case, bad checksum, unterminated tail) + trailing bytes through a position-scripted reader — EVERY composition of three short streams into deliveries (8192 for the 14-byte one), an interrupt / hard error / premature EOF at EVERY stream position, plus seeded random fragmentations and fault subsets; write: every chunk size in {1,2,3,7,all} with a hard error / Ok(0) / interrupt at EVERY call index, plus random scripts, and sessions of 2..5 frames written to one sink with faults in between (each write judged on the bytes accepted during it); distinct by (tape, boundaries, faults) hash; all non-trivial".into(),
+        rule: "read: streams of 1..4 lines (valid, bare-LF, doubled CR, blanks around the terminator, empty, garbage, lower-case, bad checksum, unterminated tail; a third of the lines repeat the previous line's frame in another spelling) + trailing bytes through a position-scripted reader — EVERY composition of three short streams into deliveries (8192 for the 14-byte one), an interrupt / hard error / premature EOF at EVERY stream position, plus seeded random fragmentations and fault subsets; write: every chunk size in {1,2,3,7,all} with a hard error / Ok(0) / interrupt at EVERY call index, plus random scripts, and sessions of 2..5 frames written to one sink with faults in between (each write judged on the bytes accepted during it); distinct by (tape, boundaries, faults) hash; all non-trivial".into(),
         exhaustive: false,
         floors,
         assumptions: vec![
